@@ -9,15 +9,14 @@ ADDR = "rust/lance-core/src/utils/address.rs"
 
 UNIT = dict(
     engine="kani-transplant",
-    deps='vstd = { path = "/verif/models/vstd" }\nroaring = { package = "vroaring", path = "/verif/models/roaring" }',
+    deps='vstd = { path = "/verif/models/vstd" }\nroaring = { package = "vroaring_bits", path = "/verif/models/roaring_bits" }',
     encoded={MASK: ["whole file up to #[cfg(test)] except into_arrow/from_arrow/serialize_into/deserialize_from/DeepSizeOf"],
              ADDR: ["whole file"]},
     models=["std::collections::BTreeMap/HashSet -> vstd sorted fixed-capacity array model (capacity 4 entries; exceeding it is a model bound)",
-            "roaring::RoaringBitmap -> union of <=3 disjoint u32 intervals (exact on the whole u32 domain for sets of interval complexity <=3; more is a model bound)",
+            "roaring::RoaringBitmap -> finite/co-finite sets relative to a symbolic universe of 4 arbitrary u32 row offsets (exact for membership, emptiness, cardinality, union, intersection, difference, full(); leaving the family is a model bound); range insertion is decided in unit mask_l1r against the interval model",
             "deepsize::DeepSizeOf derive/impl removed (memory accounting only)"],
     bounds={"fragments_per_map": "<=2 in the symbolic pre-state (arbitrary u32 fragment ids), capacity 4",
-            "bitmap": "<=2 intervals per fragment in the pre-state, <=3 in results; interval end points arbitrary u32",
-            "insert_range": "ranges spanning <=2 fragments (loop unwinding 4, unwinding assertion on)",
+            "bitmap": "each fragment's bitmap is an arbitrary finite or co-finite set w.r.t. 4 symbolic row offsets",
             "probe": "post-conditions are pointwise on an arbitrary u64 row id"},
     outside=["into_arrow/from_arrow (Arrow framing)", "serialize_into/deserialize_from (see unit mask_ser)",
              "sets whose bitmaps need more than 3 intervals", "maps with more than 4 fragments"],
